@@ -140,8 +140,8 @@ Inductive pclass := PNil | PNoMeta | PBadSet | PNoParams.
 Inductive lres := LPanic (c : pclass) | LEmpty | LOk (s : cstate).
 
 (** loadStateAtHeight.  The block id (fix 12b60d8) and the app hash (fix 1aee27d) are taken from
-    the block store only above height 0 (fix
-    12b60d8: the genesis state keeps the zero id that MakeGenesisState gave it).
+    the block store only above height 0: the genesis state keeps the zero id and the zero
+    app hash that MakeGenesisState gave it.
     The three reads of validator records: a missing record is dereferenced (nil pointer),
     a record without / with an invalid set makes ValidatorSetFromProto fail (panic(err)) *)
 Definition read_set (d : db) (k : N) : pclass + (valset * N) :=
